@@ -299,3 +299,47 @@ Definition vars_run (i : list vop * Z) : list (list Z) :=
   let '(ops, dt) := i in
   let '(t, sf) := vtrace vinit ops in
   t ++ [load_row (reload (vnow sf + dt) (vdisk sf))].
+
+(* ============================================================================================ *)
+(* FileManager.save called directly (suite "fsave": real YamlInterface, real ruamel dumper,      *)
+(* faults injected in the file object's write() and by unrepresentable values).  One call is the *)
+(* writer machine from PCopy to the end, in "final" mode (an exception is not caught).           *)
+(*   fault 0: none; 1: the dump raises before anything reached the temp file (temp left empty);  *)
+(*   2: it raises after part of the text was written (temp left partial)                         *)
+
+Definition direct_state (b : bool) (v : Z) (d : fileT * fileT) : state :=
+  mk PCopy true v false b false v (fst d) (snd d) false.
+
+Definition direct_save (c : cfg) (b : bool) (v : Z) (d : fileT * fileT) (fault : Z) : state :=
+  run c (direct_state b v d)
+      (if fault =? 0 then ticks 5
+       else if fault =? 1 then [Tick; Tick; IoError] else [Tick; Tick; Tick; IoError]).
+
+Inductive fop :=
+| FGood (i v : Z)                (* save of a representable version v to file i (0 or 1), no fault *)
+| FFail (i v e t : Z).           (* the save raises (e: 1 RepresenterError, 2 OSError); t as above  *)
+
+Record fstate := mkf { fbusy : bool; fd0 : fileT * fileT; fd1 : fileT * fileT }.
+
+Definition fstep (c : cfg) (s : fstate) (o : fop) : fstate * list Z :=
+  let '(i, v, e, t) := match o with FGood i v => (i, v, 0, 0) | FFail i v e t => (i, v, e, t) end in
+  let d := if i =? 0 then fd0 s else fd1 s in
+  let r := direct_save c (fbusy s) v d t in
+  let d' := (file r, temp r) in
+  let s' := if i =? 0 then mkf (busy r) d' (fd1 s) else mkf (busy r) (fd0 s) d' in
+  (s', [b2z (t =? 0); e; b2z (fbusy s')]
+         ++ file_code (fst (fd0 s')) :: temp_code (snd (fd0 s'))
+         ++ file_code (fst (fd1 s')) :: temp_code (snd (fd1 s'))).
+
+Fixpoint ftrace (c : cfg) (s : fstate) (ops : list fop) : list (list Z) :=
+  match ops with
+  | [] => []
+  | o :: r => let '(s', row) := fstep c s o in row :: ftrace c s' r
+  end.
+
+Definition finit : fstate := mkf false (None, None) (None, None).
+
+Definition frun (c : cfg) (s : fstate) (ops : list fop) : fstate :=
+  fold_left (fun s o => fst (fstep c s o)) ops s.
+
+Definition fsave_run (i : cfg * list fop) : list (list Z) := ftrace (fst i) finit (snd i).
